@@ -708,9 +708,14 @@ impl<N, E, S: BuildHasher, Ty: EdgeType, Null: Nullable<Wrapped = E>, Ix: IndexT
     }
 
     fn assert_node_bounds(&self, a: NodeIndex<Ix>, b: NodeIndex<Ix>) -> Result<(), MatrixError> {
-        if a.index() >= self.node_capacity {
+        // A node can exist beyond the matrix capacity, which only grows with the edges.
+        let missing = |n: NodeIndex<Ix>| {
+            n.index() >= self.node_capacity
+                && !matches!(self.nodes.elements.get(n.index()), Some(Some(_)))
+        };
+        if missing(a) {
             Err(MatrixError::NodeMissed(a.index()))
-        } else if b.index() >= self.node_capacity {
+        } else if missing(b) {
             Err(MatrixError::NodeMissed(b.index()))
         } else {
             Ok(())
